@@ -132,6 +132,11 @@ def relational(W, cfg):
                   'C11:no-draw-from-unseeded-generator',
                   '%d draws from generators created without a seed' %
                   W.unseeded_draws)
+        # bounds are sampled through the sampler pool, never through the
+        # likelihood pool (whose size must stay invisible)
+        W.require(all(pl is SB.pool_s or pl is SA.pool_s
+                      for pl in StubNautilusBound.pools_seen),
+                  'C11:bounds-use-the-sampler-pool', '')
         for b in StubNautilusBound.computed:
             W.require(b.rng is SB.rng or b.rng is SA.rng,
                       'C11:bounds-share-the-sampler-generator', '')
